@@ -27,6 +27,7 @@ enum Tk { Simple, Whitespace, Raw, Ngram(usize, usize, bool), Regex(String), Fac
 #[derive(Clone, Debug)]
 enum Fl { Lower, Fold, RemoveLong(usize), AlnumOnly, Stop(Vec<String>), Stem(usize), Split(Vec<String>) }
 
+static LONG_TOKEN: std::sync::atomic::AtomicBool = std::sync::atomic::AtomicBool::new(false);
 const LANGS: [Language; 4] = [Language::English, Language::French, Language::German, Language::Russian];
 
 fn cps(s: &str) -> String { cf::list(&s.chars().collect::<Vec<_>>(), |c| format!("{}", *c as u32)) }
@@ -81,7 +82,7 @@ fn gen_text(rng: &mut Rng, kind: u64) -> String {
     match kind % 12 {
         0 => String::new(),
         1 => { // one long token
-            let n = if kind == 13 { 350_000 } else { rng.range(30, 400) as usize };
+            let n = if kind == 13 && LONG_TOKEN.load(std::sync::atomic::Ordering::Relaxed) { 350_000 } else { rng.range(30, 400) as usize };
             let unit = *rng.pick(&["a", "é", "語", "𝒳", "ab"]);
             unit.repeat(n)
         }
@@ -273,6 +274,7 @@ fn main() {
     tvh::quiet_panics();
     let mut rng = Rng::new(args.seed);
     let thorough = args.thorough();
+    LONG_TOKEN.store(thorough, std::sync::atomic::Ordering::Relaxed);   // the 350 000-character single token: thorough tier only
     let mut out = CaseOut::new(&args.out, HEADER, 40);
     let mut known_budget: BTreeMap<&'static str, i64> = [("F9", 12i64), ("F10", 12), ("F22", 12)].into_iter().collect();
 
@@ -445,6 +447,51 @@ fn main() {
                 out.spec_checked(dis && inside && unhtml(&html) == frag && text.contains(&frag), json!({"what": "snippet(new) spec", "case": desc}));
                 if frag.chars().count() > max { known_hit(&mut out, &mut known_budget, "F9", f9_in_class(&text, &toks, &frag, max), format!("f9_class {} {} {} {}", cps(&text), toks_term(&toks), cps(&frag), max), json!({"what": "fragment longer than max_num_chars", "case": desc, "fragment": frag})); }
                 out.count("snippet_new_cases", 1);
+            }
+        }
+    }
+
+
+    // ================= (iv) analyzer reuse: a stream dropped early must not leak into the next one =================
+    // TextAnalyzer::token_stream borrows the analyzer mutably; a caller may stop after k tokens and drop the
+    // stream (also in the middle of a split compound word), then tokenize another text with the SAME analyzer.
+    let n_reuse = if thorough { 1500 } else { 400 };
+    let mut coq_reuse: i64 = if thorough { 120 } else { 40 };
+    for i in 0..n_reuse {
+        let tk = match i % 5 { 0 => Tk::Simple, 1 => Tk::Whitespace, 2 => Tk::Raw, 3 => gen_tokenizer(&mut rng, i), _ => Tk::Simple };
+        let mut text_a = gen_text(&mut rng, 5 + (i % 7));
+        if text_a.chars().count() > 80 { text_a = text_a.chars().take(80).collect(); }
+        if i % 2 == 0 { text_a = format!("{} dampfschifffahrt {}abcabc schiffdampf", rng.pick(WORDS), text_a); }
+        let mut fls: Vec<Fl> = vec![];
+        let nf = 1 + rng.below(3) as usize;
+        let split_at = if i % 2 == 0 { rng.below(nf as u64) as usize } else { usize::MAX };
+        for j in 0..nf {
+            let cur = run(&mut build(&tk, &fls), &text_a).unwrap_or_default();
+            fls.push(if j == split_at { Fl::Split(vec!["dampf".into(), "schiff".into(), "fahrt".into(), "ab".into(), "c".into()]) } else { gen_filter(&mut rng, &cur) });
+        }
+        let text_b = match i % 4 { 0 => String::new(), 1 => "öl".to_string(), _ => { let mut t = gen_text(&mut rng, 5 + (i % 6)); if t.chars().count() > 60 { t = t.chars().take(60).collect(); } t } };
+        let full_a = match run(&mut build(&tk, &fls), &text_a) { Ok(t) => t, Err(_) => continue };
+        let fresh_b = match run(&mut build(&tk, &fls), &text_b) { Ok(t) => t, Err(_) => continue };
+        let mut analyzer = build(&tk, &fls);
+        // every stopping point in quick would be too many: a few random k, always including "inside a compound" candidates
+        let mut ks: Vec<usize> = vec![0, full_a.len()];
+        for _ in 0..4 { ks.push(rng.below(full_a.len() as u64 + 1) as usize); }
+        for w in 0..full_a.len().saturating_sub(1) { if full_a[w].from == full_a[w + 1].from && full_a[w].to == full_a[w + 1].to && ks.len() < 12 { ks.push(w + 1); } }
+        ks.sort(); ks.dedup();
+        for k in ks {
+            let part = guarded(|| { let mut s = analyzer.token_stream(&text_a); let mut n = 0; while n < k && s.advance() { n += 1; } n });
+            let desc = json!({"what": "analyzer reuse", "text_a": text_a, "stopped_after": k, "text_b": text_b, "tokenizer": format!("{:?}", tk), "filters": format!("{:?}", fls)});
+            if part.is_err() { out.spec_checked(false, json!({"what": "partial stream panicked", "case": desc})); continue; }
+            let reused_b = match run(&mut analyzer, &text_b) { Ok(t) => t, Err(e) => { out.spec_checked(false, json!({"what": "reused analyzer panicked", "case": desc, "panic": e})); continue; } };
+            out.count("reuse_cases", 1);
+            if fls.iter().any(|f| matches!(f, Fl::Split(_))) && k > 0 && k < full_a.len() && full_a[k - 1].from == full_a[k].from && full_a[k - 1].to == full_a[k].to { out.count("reuse_dropped_inside_compound", 1); }
+            // spec: the reused analyzer's tokens for B are those of a fresh analyzer, and satisfy the offset predicate on B
+            out.spec_checked(reused_b == fresh_b, json!({"what": "tokens of a reused analyzer differ from a fresh analyzer's", "case": desc, "reused": format!("{:?}", &reused_b[..reused_b.len().min(20)]), "fresh": format!("{:?}", &fresh_b[..fresh_b.len().min(20)])}));
+            let s_ok = spans_ok(&text_b, &reused_b);
+            out.spec_checked(s_ok, json!({"what": "reused analyzer: token offsets outside the text / off a boundary / positions decrease", "case": desc, "tokens": format!("{:?}", &reused_b[..reused_b.len().min(20)])}));
+            if coq_reuse > 0 && k > 0 && k < full_a.len() && reused_b.len() <= 100 {
+                coq_reuse -= 1;
+                out.coq_case("spec", format!("tokens_spec {} {}", cps(&text_b), toks_term(&reused_b)), desc.clone(), !reused_b.is_empty());
             }
         }
     }
